@@ -145,6 +145,20 @@ def run_stream(resources, steps, rerun=True, collect=False):
         return {'error': err_code(e), 'exc': '%s: %s' % (type(c).__name__, str(c)[:300]), 'exc_type': type(c).__name__}
 
 
+def rotate_keys(row):
+    """a row step that leaves every value under its name but moves the row's first key to the end: steps address values by
+    field name, so nothing downstream may depend on the order of a row's keys (round 8)"""
+    if len(row) > 1:
+        k = next(iter(row))
+        row[k] = row.pop(k)
+
+
+def reverse_keys(rows):
+    """a rows step that re-builds every row with its keys in reverse order"""
+    for row in rows:
+        yield dict(reversed(list(row.items())))
+
+
 def field_names(dp, i):
     return [f['name'] for f in dp['resources'][i]['schema']['fields']]
 
